@@ -539,6 +539,20 @@ func (o *scriptOps) SecurityError(msg string) {
 	o.mu.Lock()
 	defer o.mu.Unlock()
 	o.sec = append(o.sec, msg)
+	// the report is evidence of a fork only if two of the signed heads it carries contradict each other
+	if hs := o.notesIn(msg); len(hs) >= 2 {
+		fork := false
+		for i := range hs {
+			for j := i + 1; j < len(hs); j++ {
+				if !(o.w.PrefixOf(hs[i], hs[j]) || o.w.PrefixOf(hs[j], hs[i])) {
+					fork = true
+				}
+			}
+		}
+		if !fork {
+			o.viol = append(o.viol, core.Violation{Sig: "c13:security-report-shows-no-fork", What: fmt.Sprintf("the signed tree heads in the security report %v are consistent with each other: the client's own head or the presented one is missing", hs)})
+		}
+	}
 	o.log(opCall{Op: "SecurityError"})
 	if o.ev != nil {
 		o.ev("Security", map[string]any{"notes": o.countNotes(msg)})
@@ -546,8 +560,10 @@ func (o *scriptOps) SecurityError(msg string) {
 }
 
 // countNotes counts how many distinct good-signature heads of the world appear verbatim in msg.
-func (o *scriptOps) countNotes(msg string) int {
-	notes := 0
+func (o *scriptOps) countNotes(msg string) int { return len(o.notesIn(msg)) }
+
+func (o *scriptOps) notesIn(msg string) []sumworld.HeadLabel {
+	var notes []sumworld.HeadLabel
 	for _, tl := range o.w.Timelines() {
 		for n := 1; n <= o.w.Size[tl]; n++ {
 			if o.w.Norm(tl, n) == "P" && tl != "A" {
@@ -555,7 +571,7 @@ func (o *scriptOps) countNotes(msg string) int {
 			}
 			hb := o.w.Head(sumworld.HeadLabel{Kind: "good", Tl: tl, N: n})
 			if strings.Contains(msg, strings.Replace(strings.TrimSuffix(string(hb), "\n"), "\n", "\n\t", -1)) || strings.Contains(msg, string(hb)) {
-				notes++
+				notes = append(notes, sumworld.HeadLabel{Kind: "good", Tl: o.w.Norm(tl, n), N: n})
 			}
 		}
 	}
